@@ -44,6 +44,8 @@ type runner struct {
 	nTrav, nParts, nT    int
 	idxTrav, idxParts, idxT []string // printable inputs per family; concatenated into report.case_index at the end
 	g                    *gen
+	gk                   *gen             // index-key stream (numkey.go), its own random stream
+	nk                   *hcl.EvalContext // the scope stand-alone traversals are applied to (numkey.go)
 	nameTable            map[string]string
 }
 
@@ -369,6 +371,10 @@ func (x *runner) standaloneCase(src string) {
 	} else if !da.HasErrors() {
 		x.fail("standalone-traversal-differs", "ParseTraversalAbs accepts the text, ParseTraversalPartial reports: "+dp.Error(), input, nil)
 	}
+	// against the independent reading of the text, and applied to a scope (numkey.go)
+	if p := guard(func() { x.refStandalone(src, input, ta, da, tp, dp, e, de, et, etd) }); p != nil {
+		x.fail("panic", fmt.Sprint("traversal of a stand-alone text: ", p), input, nil)
+	}
 	x.rep.Count("standalone|"+src, nontrivial)
 }
 
@@ -471,26 +477,14 @@ func (x *runner) listOracle(elems []hcl.Expression, whole cty.Value, wd hcl.Diag
 	}
 }
 
-func (x *runner) callOracle(call *hcl.StaticCall, expand bool, whole cty.Value, wd hcl.Diagnostics, ctx *hcl.EvalContext, input string) {
-	kind := "exprcall-differs"
-	if expand {
-		kind = "exprcall-expand-dropped"
-	}
-	f, ok := lookupFn(ctx, call.Name)
-	if !ok {
-		if !wd.HasErrors() {
-			x.fail(kind, "no such function, yet the whole call has no errors", input, nil)
-		}
-		return
-	}
+// applyStatic applies f to the given argument values the way a call expression does (arity, conversion
+// to the parameter types, f.Call) and compares with what the whole call expression gave.  problem is ""
+// when they agree; panicked reports that the direct application could not be made.
+func applyStatic(f function.Function, name string, vals []cty.Value, argErr bool, whole cty.Value, wd hcl.Diagnostics) (problem string, panicked bool) {
 	params, varp := f.Params(), f.VarParam()
-	wantErr := len(call.Arguments) < len(params) || (varp == nil && len(call.Arguments) > len(params))
-	vals := make([]cty.Value, len(call.Arguments))
-	for i, a := range call.Arguments {
-		v, d := a.Value(ctx)
-		if d.HasErrors() {
-			wantErr = true
-		}
+	wantErr := argErr || len(vals) < len(params) || (varp == nil && len(vals) > len(params))
+	vals = append([]cty.Value(nil), vals...)
+	for i, v := range vals {
 		var p *function.Parameter
 		if i < len(params) {
 			p = &params[i]
@@ -511,8 +505,7 @@ func (x *runner) callOracle(call *hcl.StaticCall, expand bool, whole cty.Value, 
 	if !wantErr {
 		var err error
 		if p := guard(func() { rv, err = f.Call(vals) }); p != nil {
-			x.rep.Hist("parts:call:direct-call-panicked")
-			return
+			return "", true
 		}
 		if err != nil {
 			wantErr = true
@@ -520,17 +513,101 @@ func (x *runner) callOracle(call *hcl.StaticCall, expand bool, whole cty.Value, 
 	}
 	if wantErr {
 		if !wd.HasErrors() {
-			x.fail(kind, fmt.Sprintf("applying %s to the static arguments fails, the whole call gives %s without errors", call.Name, hv.DumpVal(whole)), input, nil)
+			return fmt.Sprintf("applying %s to the static arguments fails, the whole call gives %s without errors", name, hv.DumpVal(whole)), false
+		}
+		return "", false
+	}
+	if wd.HasErrors() {
+		return fmt.Sprintf("applying %s to the static arguments gives %s, the whole call reports: %s", name, hv.DumpVal(rv), wd.Error()), false
+	}
+	if hv.DumpVal(rv) != hv.DumpVal(whole) {
+		return fmt.Sprintf("applying %s to the static arguments gives %s, the whole call gives %s", name, hv.DumpVal(rv), hv.DumpVal(whole)), false
+	}
+	return "", false
+}
+
+// expandedAgrees: the repaired reading of f(a, ..., xs...): the final argument is expanded the way
+// FunctionCallExpr.Value expands it (null or not a list/set/tuple: an error; unknown or dynamically typed:
+// the whole call is unknown; otherwise one argument per element, carrying the collection's marks) and
+// THEN the static application agrees with the whole call.
+// (FunctionCallExpr.Value looks at the expansion argument BEFORE it evaluates the others, so an unknown
+// xs makes the whole call unknown even when another argument is in error: lastErr / otherErr.)
+func expandedAgrees(f function.Function, name string, vals []cty.Value, lastErr, otherErr bool, whole cty.Value, wd hcl.Diagnostics) bool {
+	if len(vals) == 0 {
+		return false
+	}
+	if lastErr {
+		return wd.HasErrors()
+	}
+	last, marks := vals[len(vals)-1].Unmark()
+	ty := last.Type()
+	unknownWhole := func() bool {
+		u, _ := whole.Unmark()
+		return !wd.HasErrors() && !u.IsKnown() && u.Type() == cty.DynamicPseudoType
+	}
+	switch {
+	case ty == cty.DynamicPseudoType:
+		if last.IsNull() {
+			return wd.HasErrors()
+		}
+		return unknownWhole()
+	case ty.IsListType() || ty.IsSetType() || ty.IsTupleType():
+		if last.IsNull() {
+			return wd.HasErrors()
+		}
+		if !last.IsKnown() {
+			return unknownWhole()
+		}
+		ex := append([]cty.Value(nil), vals[:len(vals)-1]...)
+		for it := last.ElementIterator(); it.Next(); {
+			_, ev := it.Element()
+			ex = append(ex, ev.WithMarks(marks))
+		}
+		problem, panicked := applyStatic(f, name, ex, otherErr, whole, wd)
+		return !panicked && problem == ""
+	}
+	return wd.HasErrors()
+}
+
+func (x *runner) callOracle(call *hcl.StaticCall, expand bool, whole cty.Value, wd hcl.Diagnostics, ctx *hcl.EvalContext, input string) {
+	f, ok := lookupFn(ctx, call.Name)
+	if !ok {
+		if !wd.HasErrors() {
+			x.fail("exprcall-differs", "no such function, yet the whole call has no errors", input, nil)
 		}
 		return
 	}
-	if wd.HasErrors() {
-		x.fail(kind, fmt.Sprintf("applying %s to the static arguments gives %s, the whole call reports: %s", call.Name, hv.DumpVal(rv), wd.Error()), input, nil)
+	vals := make([]cty.Value, len(call.Arguments))
+	argErr, lastErr, otherErr := false, false, false
+	for i, a := range call.Arguments {
+		v, d := a.Value(ctx)
+		if d.HasErrors() {
+			argErr = true
+			if i == len(call.Arguments)-1 {
+				lastErr = true
+			} else {
+				otherErr = true
+			}
+		}
+		vals[i] = v
+	}
+	problem, panicked := applyStatic(f, call.Name, vals, argErr, whole, wd)
+	if panicked {
+		x.rep.Hist("parts:call:direct-call-panicked")
 		return
 	}
-	if hv.DumpVal(rv) != hv.DumpVal(whole) {
-		x.fail(kind, fmt.Sprintf("applying %s to the static arguments gives %s, the whole call gives %s", call.Name, hv.DumpVal(rv), hv.DumpVal(whole)), input, nil)
+	if problem == "" {
+		return
 	}
+	// The pinned finding: hcl.ExprCall drops the "..." of f(xs...).  The disagreement is filed under it
+	// only when it is explained by exactly that: with the final argument expanded, name and arguments of
+	// the StaticCall do give what the whole call gives.  Any other disagreement of a call that happens
+	// to use "..." keeps the generic kind.
+	kind := "exprcall-differs"
+	if expand && expandedAgrees(f, call.Name, vals, lastErr, otherErr, whole, wd) {
+		kind = "exprcall-expand-dropped"
+	}
+	x.fail(kind, problem, input, nil)
 }
 
 func (x *runner) partsCase(e hclsyntax.Expression, text string, ctx *hcl.EvalContext) {
@@ -984,6 +1061,81 @@ func roundTripIgnoringOptional(ty cty.Type, s string, viaJSON bool) bool {
 	return p == ""
 }
 
+// renameAttr returns ty with every object attribute called from renamed to to (optionality kept).
+func renameAttr(ty cty.Type, from, to string) cty.Type {
+	switch {
+	case ty.IsListType():
+		return cty.List(renameAttr(ty.ElementType(), from, to))
+	case ty.IsSetType():
+		return cty.Set(renameAttr(ty.ElementType(), from, to))
+	case ty.IsMapType():
+		return cty.Map(renameAttr(ty.ElementType(), from, to))
+	case ty.IsTupleType():
+		ets := ty.TupleElementTypes()
+		out := make([]cty.Type, len(ets))
+		for i, e := range ets {
+			out[i] = renameAttr(e, from, to)
+		}
+		return cty.Tuple(out)
+	case ty.IsObjectType():
+		out := map[string]cty.Type{}
+		var opt []string
+		for n, a := range ty.AttributeTypes() {
+			nn := n
+			if n == from {
+				nn = to
+			}
+			out[nn] = renameAttr(a, from, to)
+			if ty.AttributeOptional(n) {
+				opt = append(opt, nn)
+			}
+		}
+		return cty.ObjectWithOptionalAttrs(out, opt)
+	}
+	return ty
+}
+
+// forIsTheCause decides the pinned finding typestring-first-attr-for for one type: (1) the native parser
+// reports a 'for' expression error exactly where TypeString wrote "{for" (an object whose first attribute
+// is called for), and (2) with that one name replaced by a fresh identifier - nothing else changed - the
+// type round-trips through both syntaxes (up to the other pinned finding, dropped optional markers).
+// Any other round-trip failure of a type that merely contains such an object keeps the generic kind.
+func forIsTheCause(ty cty.Type, s string, npd hcl.Diagnostics) bool {
+	at := false
+	for _, d := range npd {
+		if d.Severity == hcl.DiagError && strings.Contains(d.Summary, "'for' expression") && d.Subject != nil &&
+			d.Subject.Start.Byte <= len(s) && strings.HasSuffix(strings.TrimRight(s[:d.Subject.Start.Byte], " "), "{for") {
+			at = true
+		}
+	}
+	if !at {
+		return false
+	}
+	fresh := "for_"
+	for used := true; used; {
+		used = false
+		walkNames(ty, func(n string) {
+			if n == fresh {
+				used = true
+			}
+		})
+		if used {
+			fresh += "x"
+		}
+	}
+	ty2 := renameAttr(ty, "for", fresh)
+	var s2 string
+	if p := guard(func() { s2 = typeexpr.TypeString(ty2) }); p != nil {
+		return false
+	}
+	for _, viaJSON := range []bool{false, true} {
+		if p, _ := roundTrip(ty2, s2, viaJSON); p != "" && !(hasOptional(ty2) && roundTripIgnoringOptional(ty2, s2, viaJSON)) {
+			return false
+		}
+	}
+	return true
+}
+
 func isForDiag(ds hcl.Diagnostics) bool {
 	for _, d := range ds {
 		if strings.Contains(d.Summary, "'for' expression") {
@@ -1020,7 +1172,8 @@ func (x *runner) typeCase(ty cty.Type) {
 	}
 	// direct oracle
 	_, npd := hclsyntax.ParseExpression([]byte(s), "t.hcl", hcl.InitialPos)
-	forCause := forFirst && isForDiag(npd) // the native parser reads "{for" as a for-expression (the JSON syntax parses the string natively)
+	// the native parser reads "{for" as a for-expression (the JSON syntax parses the string natively)
+	forCause := forFirst && isForDiag(npd) && forIsTheCause(ty, s, npd)
 	opt := hasOptional(ty)
 	if opt {
 		x.rep.Hist("type:optional-attribute")
@@ -1188,13 +1341,14 @@ func scopesFor(seed uint64, n int) []*hcl.EvalContext {
 
 func run(cfg *hv.RunCfg) error {
 	rep := hv.NewReport("C20", cfg.Seed)
-	rep.Rule = "hand corpus, then generated: (1) traversal-shaped expression texts (attribute, string/number/legacy/bool/null index, splats, expression keys, newlines and comments between steps, keyword and undefined roots) typed for scopes from hv.EvalGen (1-3 frames, every cty kind, nulls, unknowns, marks), plain or wrapped (parentheses, template, object key, tuple element, call argument), plus arbitrary expressions of the evaluation generator; (2) texts for the stand-alone traversal parsers (identifiers incl. keywords/unicode/dashes, steps, splats, whitespace, mutated garbage); (3) tuple/object/call expressions over the harness functions (with `...`), native and JSON; (4) cty types of the constraint language nested to depth 4 with attribute names from identifiers incl. keywords, dashes, unicode and (10%) non-identifiers, and type-expression texts with deliberate errors; non-trivial = traversal with a step / non-empty list, map or call / type of depth >= 1; distinct by SHA-256 of class, text and scope"
+	rep.Rule = "hand corpus, then generated: (1) traversal-shaped expression texts (attribute, string/number/legacy/bool/null index, splats, expression keys, newlines and comments between steps, keyword and undefined roots) typed for scopes from hv.EvalGen (1-3 frames, every cty kind, nulls, unknowns, marks), plain or wrapped (parentheses, template, object key, tuple element, call argument), plus arbitrary expressions of the evaluation generator; (2) texts for the stand-alone traversal parsers (identifiers incl. keywords/unicode/dashes, steps, splats, whitespace, mutated garbage); (2b) traversal texts over a fixed scope with 1100-element lists whose index keys range over the whole number-literal grammar (leading zeros, fractions, exponents, integers beyond int64 / float64 / 512 bits, near misses 0x10 1_000 1. +1), legacy .N indexes, string keys with escapes and template-looking content, whitespace/newlines/comments inside brackets, splats; every stand-alone text is also read by a reference parser written in the harness (acceptance, step names, key values from the digits) and each of its traversals is applied to that scope against the evaluation of the expression; (3) tuple/object/call expressions over the harness functions (with `...`), native and JSON; (4) cty types of the constraint language nested to depth 4 with attribute names from identifiers incl. keywords, dashes, unicode and (10%) non-identifiers, and type-expression texts with deliberate errors; non-trivial = traversal with a step / non-empty list, map or call / type of depth >= 1; distinct by SHA-256 of class, text and scope"
 	r := hv.NewRng(cfg.Seed, 20)
 	x := &runner{rep: rep, g: &gen{r: r, feat: map[string]int{}}, nameTable: map[string]string{},
 		cfTrav:  &hv.CaseFile{Dir: cfg.Out, Name: "c20trav", Imports: importsStatic, Ctype: "tcase", Checker: "check_trav_cases"},
 		cfParts: &hv.CaseFile{Dir: cfg.Out, Name: "c20parts", Imports: importsStatic, Ctype: "pcase", Checker: "check_parts_cases"},
 		cfT:     &hv.CaseFile{Dir: cfg.Out, Name: "c20type", Imports: importsType, Ctype: "tycase", Checker: "check_type_cases", Extras: [][2]string{{"skipped", "skipped_type_cases"}}},
 	}
+	x.gk = &gen{r: hv.NewRng(cfg.Seed, 2020), feat: x.g.feat}
 
 	if cfg.Replay != "" {
 		b, err := os.ReadFile(cfg.Replay)
@@ -1267,6 +1421,9 @@ func run(cfg *hv.RunCfg) error {
 	for _, t := range handTrav {
 		x.standaloneCase(t)
 	}
+	for _, t := range handNumKey {
+		x.standaloneCase(t)
+	}
 	for i, t := range handParts {
 		x.partsText(t, scopes[i%len(scopes)])
 		x.jsonCallCase(t)
@@ -1317,6 +1474,8 @@ func run(cfg *hv.RunCfg) error {
 		if r.Chance(0.5) {
 			x.standaloneCase(text)
 		}
+		// (2b) index keys over the number-literal grammar, on the long-list scope (numkey.go)
+		x.standaloneCase(x.gk.numKeyText(x.numScope()))
 		// (3) parts
 		pt := x.g.partsText(eg)
 		x.partsText(pt, ctx)
